@@ -15,7 +15,7 @@ func init() { register("C12", checkC12) }
 func checkC12(p *Prog, r *Result, tier string) {
 	r.Technique = "channel/wait-group protocol rules on go/cfg (close-on-all-paths, join-before-close, exactly-one-send patterns) plus the Txn compensation rules at the per-instance site"
 	r.Explanation = "H1 the result channel of doCreateWorkloads is closed exactly once, by a defer that is the first statement of the producing goroutine; H5 every goroutine that can send on it starts with defer wg.Done() and its wait group is waited on every path before the spawner returns; " +
-		"H2 'exactly one message': the alloc step reports exactly one error message iff it fails (first-statement defer guarded by its named error result), each per-instance goroutine sends exactly once on every path (deferred send), the per-node failure branch sends `deploy` messages and returns; counts of wg.Add, spawn loop and failure loop are the same variable; " +
+		"LED on the single-failure path of the alloc step every node whose allocation succeeded is in the list the rollback walks before any other step can fail (nothing created, no usage left behind); RBI the per-instance goroutines report failed instances to the rollback: the shared node error is only assigned under a non-nil test of the assigned value (a later success cannot erase an earlier failure) and the failed index is appended under that same test; H2 'exactly one message': the alloc step reports exactly one error message iff it fails (first-statement defer guarded by its named error result), each per-instance goroutine sends exactly once on every path (deferred send), the per-node failure branch sends `deploy` messages and returns; counts of wg.Add, spawn loop and failure loop are the same variable; " +
 		"T1-T3/TC at doDeployOneWorkload: a reported failure has removed record and container under the rollback context."
 	r.NotCovered = "relation of message contents to store/engine state; pool saturation (A3: a saturated non-blocking pool drops closures)"
 	r.Assumptions = []string{"A3 the worker pool runs every submitted closure"}
@@ -33,6 +33,8 @@ func checkC12(p *Prog, r *Result, tier string) {
 	r.min("H1", 1)
 	r.min("H5", 2)
 	r.min("H2", 4)
+	r.min("RBI", 2)
+	checkC12RollbackIndices(p, r, G2)
 	a.checkStream(r, F, 1)
 	// the message channel type
 	var T types.Type
@@ -64,6 +66,8 @@ func checkC12(p *Prog, r *Result, tier string) {
 	if createSite == nil || createSite.closures[0] == nil {
 		r.undecided("H2", F.Name+" / alloc step", "", "Txn site of doCreateWorkloads not found")
 	} else {
+		r.min("LED", 1)
+		ta.checkLedger(r, createSite)
 		cond := createSite.closures[0]
 		pat, why := a.sendPattern(cond, T)
 		key := createSite.key + " / alloc step reports one error message iff it fails"
@@ -207,4 +211,93 @@ func loopBound(fn *FuncNode, fs *ast.ForStmt) types.Object {
 		return nil
 	}
 	return fn.objOf(be.Y)
+}
+
+// RBI: the failed instances of a node are reported to the caller's rollback. In the per-instance goroutines of
+// doDeployWorkloadsOnNode (a) the shared error result is only ever assigned a value tested non-nil (a later success must not
+// erase an earlier failure: the caller rolls resources back only when the error is non-nil), (b) the index of a failed
+// instance is appended to the shared index list under that same test, next to such an assignment.
+func checkC12RollbackIndices(p *Prog, r *Result, G2 *FuncNode) {
+	var errRes, idxRes types.Object
+	if G2.Type.Results != nil {
+		for _, f := range G2.Type.Results.List {
+			for _, id := range f.Names {
+				o := G2.Pkg.TypesInfo.ObjectOf(id)
+				if o.Type().String() == "error" {
+					errRes = o
+				} else if _, ok := o.Type().Underlying().(*types.Slice); ok {
+					idxRes = o
+				}
+			}
+		}
+	}
+	if errRes == nil || idxRes == nil {
+		r.undecided("RBI", G2.Name+" / named results", p.pos(G2.Decl), "doDeployWorkloadsOnNode no longer has named (indices, err) results")
+		return
+	}
+	var walk func(fn *FuncNode, f func(*FuncNode))
+	walk = func(fn *FuncNode, f func(*FuncNode)) {
+		for _, l := range fn.Lits {
+			f(l)
+			walk(l, f)
+		}
+	}
+	// guardOf: innermost enclosing `if X != nil` (no else) of node n inside literal fn; returns object X
+	guardOf := func(fn *FuncNode, n ast.Node) types.Object {
+		var g types.Object
+		ast.Inspect(fn.Body, func(x ast.Node) bool {
+			is, ok := x.(*ast.IfStmt)
+			if !ok || !(is.Body.Pos() <= n.Pos() && n.End() <= is.Body.End()) {
+				return true
+			}
+			if be, ok := unparen(is.Cond).(*ast.BinaryExpr); ok && be.Op == token.NEQ && isNilIdent(be.Y) {
+				g = fn.objOf(be.X)
+			} else {
+				g = nil
+			}
+			return true
+		})
+		return g
+	}
+	nErr, nIdx := 0, 0
+	walk(G2, func(fn *FuncNode) {
+		fn.inspectBody(func(x ast.Node) bool {
+			as, ok := x.(*ast.AssignStmt)
+			if !ok || len(as.Lhs) != 1 || len(as.Rhs) != 1 {
+				return true
+			}
+			switch fn.objOf(as.Lhs[0]) {
+			case errRes:
+				nErr++
+				key := fmt.Sprintf("%s / shared node error is only set to a value known to be non-nil (#%d)", fn.Name, nErr)
+				g := guardOf(fn, as)
+				rhs := fn.objOf(as.Rhs[0])
+				if g != nil && rhs == g {
+					r.ok("RBI", key, p.pos(as), "inside `if "+g.Name()+" != nil`")
+				} else {
+					r.bad("RBI", key, p.pos(as), "a goroutine assigns `"+exprStr(as.Rhs[0])+"` to the node's shared error without having tested it non-nil: an instance that succeeds after another failed resets the error to nil, the caller then skips the rollback of the failed instance and its resources stay allocated")
+				}
+			case idxRes:
+				nIdx++
+				key := fmt.Sprintf("%s / a failed instance's index is recorded together with a non-nil node error (#%d)", fn.Name, nIdx)
+				g := guardOf(fn, as)
+				// an assignment errRes = g in the same guarded block
+				has := false
+				if g != nil {
+					fn.inspectBody(func(y ast.Node) bool {
+						if a2, ok := y.(*ast.AssignStmt); ok && len(a2.Lhs) == 1 && len(a2.Rhs) == 1 && fn.objOf(a2.Lhs[0]) == errRes && fn.objOf(a2.Rhs[0]) == g && guardOf(fn, a2) == g {
+							has = true
+						}
+						return true
+					})
+				}
+				if has {
+					r.ok("RBI", key, p.pos(as), "index appended under the failure test that also sets the node error")
+				} else {
+					r.bad("RBI", key, p.pos(as), "an index is appended to the rollback list on a path that does not set the node's error non-nil: the caller only rolls back when the error is non-nil")
+				}
+			}
+			return true
+		})
+	})
 }
